@@ -32,7 +32,7 @@ def gen_cases(tier, seed):
         cases.append({"kind": "synthetic", "_threads": [1, 2, 3, 5, 7, 16][int(rng.integers(6))], "seed": int(rng.integers(10 ** 9)), "lang": ["C", "Py"][i % 2], "classical": bool(rng.integers(5) == 0),
                       "cutoff": [None, "inside", "inside", -1.0][rng.integers(4)], "imag": bool(rng.integers(3) == 0), "pretend_real": bool(rng.integers(4) == 0),
                       "band_indices": bool(i % 5 == 0), "projection": bool(i % 5 == 1),  # never together: unsupported combination (raises)
-                      "tgrid": ["wide", "cold", "hot", "linear"][rng.integers(4)]})
+                      "tgrid": ["wide", "cold", "hot", "linear"][rng.integers(4)], "large": bool(i % 8 == 3)})
     names = ["sc", "fcc", "rocksalt", "hcp", "rutile", "tric2", "diamond", "wurtzite"]
     for i in range(16 if tier == "quick" else 80):
         cases.append({"kind": "real", "crystal": {"name": names[i % len(names)]}, "mesh": [int(v) for v in rng.integers(2, 6, 3)], "classical": bool(rng.integers(4) == 0),
@@ -113,6 +113,10 @@ def run_case(c):
     if c["kind"] == "synthetic":
         rng = np.random.default_rng(c["seed"])
         nq, nb = int(rng.integers(1, 7)), int(rng.integers(1, 10))
+        if c.get("large"):
+            # thousands of q-points (dense meshes are the ordinary production use; kernels that work through the q-points in blocks only show
+            # their block handling there): sizes around and well above powers of two
+            nq, nb = int([1000, 4095, 4096, 4097, 5000, 8193, 9261, 13000, 20000][int(rng.integers(9))] + rng.integers(0, 3)), int(rng.integers(1, 4))
         freqs = 10 ** rng.uniform(-2, 1.7, (nq, nb))  # 0.01 .. 50 THz
         if c["imag"]:
             freqs[rng.integers(nq), rng.integers(nb)] *= -1
@@ -292,6 +296,8 @@ def run_case(c):
                     if errs[1][0] > 1e-5 * sc or errs[1][1] > 1e-5 * sc:
                         bad("thermo_identity", "S != -dF/dT (%.3e) or C_V != T dS/dT (%.3e) at T=%.6g (scale %.3e)" % (errs[1][0], errs[1][1], T0, sc), **feat)
         obs["lang_" + c["lang"]] = 1
+        obs["meshes_over_4096_qpoints"] = int(nq > 4096)
+        obs["max_qpoints_seen"] = [nq]
         obs["classical"] = int(c["classical"])
         obs["x_gt_709_cases"] = int(xmax > 709)
         obs["x_max_seen"] = [float(np.round(np.log10(max(xmax, 1e-300)), 1))]
